@@ -316,6 +316,19 @@ func (w *ResponseWriter) WriteMsg(m *dns.Msg) error {
 			// request OPT, so a fresh one stands in.
 			opt = w.ensureOpt()
 			m.Extra = append(m.Extra, opt)
+		} else if opt != w.opt {
+			// The response brought its own OPT: the record of another hop
+			// (an upstream's reply relayed by the forwarder or resolver) or
+			// a locally built carrier for an Extended DNS Error. EDNS is
+			// hop-by-hop (RFC 6891 §6.2.6): that hop's cookie, NSID,
+			// padding, private options, version and flag bits describe its
+			// conversation with this server, not this server's with the
+			// client. Only the Extended DNS Error is meant to travel; the
+			// client-facing record is otherwise rebuilt from what the
+			// client negotiated. The extended rcode bits are rewritten from
+			// the message rcode when the reply is packed.
+			opt.Option = keepEDE(opt.Option)
+			opt.Hdr.Ttl = 0
 		}
 
 		// Set common OPT parameters
@@ -425,6 +438,19 @@ func stripECS(opts []dns.EDNS0) []dns.EDNS0 {
 			continue
 		}
 		keep = append(keep, o)
+	}
+	return keep
+}
+
+// keepEDE returns opts reduced to its Extended DNS Error entries, in place
+// like its siblings: the one kind of option a response's own OPT may hand
+// on to the client.
+func keepEDE(opts []dns.EDNS0) []dns.EDNS0 {
+	keep := opts[:0]
+	for _, o := range opts {
+		if _, isEDE := o.(*dns.EDNS0_EDE); isEDE {
+			keep = append(keep, o)
+		}
 	}
 	return keep
 }
